@@ -501,6 +501,13 @@ pub fn body(c: &Case) -> Result<(), String> {
     obs(format!("{:?}", log));
     if let Some(p) = keep_proxy {
         std::mem::forget(p);
+        return Ok(());
+    }
+    // whatever was received with a message that never completed has to be released
+    drop(w);
+    let snap = interpose::snapshot();
+    if !snap.open_fds.is_empty() {
+        return Err(format!("[leak-after-truncated-transfer] descriptors received with the interrupted message are still open in the receiving process: {:?}", snap.open_fds));
     }
     Ok(())
 }
